@@ -90,6 +90,9 @@ func transformKind(c *proto.Case) interface{} {
 		}
 	}
 	tr := didtransformer.New(opts...)
+	if Shared {
+		tr = shared("transformer|"+string(proto.Marshal(c.Body["opts"])), func() interface{} { return didtransformer.New(opts...) }).(*didtransformer.Transformer)
+	}
 	res, err := tr.TransformDocument(rm, info)
 	if err != nil {
 		return M{"class": "err"}
@@ -121,8 +124,25 @@ func transformKind(c *proto.Case) interface{} {
 	return out
 }
 
+func handlerFor(ns string) (*dochandler.DocumentHandler, error) {
+	if !Shared {
+		return dochandler.New(ns)
+	}
+	v := shared("dochandler|"+ns, func() interface{} {
+		dh, err := dochandler.New(ns)
+		if err != nil {
+			return err
+		}
+		return dh
+	})
+	if err, ok := v.(error); ok {
+		return nil, err
+	}
+	return v.(*dochandler.DocumentHandler), nil
+}
+
 func resolveKind(c *proto.Case) interface{} {
-	dh, err := dochandler.New(c.Str("ns"))
+	dh, err := handlerFor(c.Str("ns"))
 	if err != nil {
 		return M{"class": "setup-failed"}
 	}
@@ -135,7 +155,7 @@ func resolveKind(c *proto.Case) interface{} {
 
 // processKind: C17 — ProcessOperation, then resolve the DID it returned.
 func processKind(c *proto.Case) interface{} {
-	dh, err := dochandler.New(c.Str("ns"))
+	dh, err := handlerFor(c.Str("ns"))
 	if err != nil {
 		return M{"class": "setup-failed"}
 	}
